@@ -12,7 +12,7 @@ run_one() {
     *) ids=$(grep -F "$(echo "$base" | cut -d- -f2)" mutants/revert-map.txt | cut -d' ' -f3-);;
   esac
   for id in $ids; do
-    SELFTEST_SUITE=1 ./selftest "$f" "$id" 2>&1 | grep -E "^(CAUGHT|MISSED|suite:|PATCH-FAILED|MUTANT)" | tr '\n' ' '
+    SELFTEST_SUITE=${SELFTEST_SUITE_DEFAULT:-0} ./selftest "$f" "$id" 2>&1 | grep -E "^(CAUGHT|MISSED|suite:|PATCH-FAILED|MUTANT)" | tr '\n' ' '
     echo
   done
 }
